@@ -120,6 +120,11 @@ class Fitter(object):
             The results of the fit.
         """
 
+        if source.n_wav != len(self.filters):
+            raise ValueError("source {0} has {1} data points, but {2} filters "
+                             "were specified".format(source.name, source.n_wav,
+                                                     len(self.filters)))
+
         info = self.models.fit(source, self.av_law, self.sc_law,
                                self.av_range[0], self.av_range[1])
 
@@ -239,6 +244,12 @@ def fit(data, filter_names, apertures, model_dir, output, n_data_min=3,
             s = Source.from_ascii(data_file.readline())
         except EOFError:
             break
+
+        # (also for the sources that are not going to be fitted)
+        if s.n_wav != len(filter_names):
+            raise ValueError("source {0} has {1} data points, but {2} filters "
+                             "were specified".format(s.name, s.n_wav,
+                                                     len(filter_names)))
 
         if s.n_data >= n_data_min:
 
